@@ -4,7 +4,7 @@
 (* (exact prefix match by the harness, 0 = none) and extra = the fields after that prefix;       *)
 (* c.gsi are the index entries with their offsets resolved to output ordinals (0 = not a line    *)
 (* start).                                                                                       *)
-EXTENDS SortGaf, IOUtils
+EXTENDS SortGaf
 Cases == ndJsonDeserialize(IOEnv.CASES)
 VARIABLE i
 ToSet(s) == {s[k] : k \in DOMAIN s}
